@@ -92,6 +92,8 @@ func (s *Sink) Printf(format string, args ...interface{}) {
 		s.w.QuietYield("sink")
 		return
 	}
-	s.w.Rec(Ev{Actor: "sink", Kind: "sink", S: fmt.Sprintf(format, args...)})
+	// a sink may be slow to take its argument: it parks before rendering, so a caller
+	// that hands it memory it goes on to reuse is exposed
 	s.w.Park("sink")
+	s.w.Rec(Ev{Actor: "sink", Kind: "sink", S: fmt.Sprintf(format, args...)})
 }
